@@ -309,7 +309,7 @@ DirBase ==
                      RuleLink(<<T("ARGS_POST")>>, << >>, OpLit("streq", s_x), FALSE, << >>)>>) EXCEPT !.tags = <<"t2">>, !.msg = "m3", !.status = 503],   \* an explicit status survives an action update
      MkRule(40, 2, <<ActLink(<<ASetvar(<<Lit(s_n)>>, "add", <<Lit(s_1)>>)>>)>>) >>
 OnlyExcl(col, sel) == Tgt(col, [t |-> "none", k |-> << >>, pat |-> [m |-> "", lit |-> << >>]], FALSE, <<sel>>)
-DirIdSets == { [ids |-> <<10>>, lo |-> 0, hi |-> 0], [ids |-> <<10, 30>>, lo |-> 0, hi |-> 0], [ids |-> <<20, 40>>, lo |-> 0, hi |-> 0],
+DirIdSets == { [ids |-> <<10>>, lo |-> 0, hi |-> 0], [ids |-> <<30>>, lo |-> 0, hi |-> 0], [ids |-> << >>, lo |-> 25, hi |-> 35], [ids |-> <<10, 30>>, lo |-> 0, hi |-> 0], [ids |-> <<20, 40>>, lo |-> 0, hi |-> 0],
                [ids |-> << >>, lo |-> 10, hi |-> 20], [ids |-> << >>, lo |-> 15, hi |-> 35], [ids |-> <<40>>, lo |-> 10, hi |-> 10] }
 DirTargetSets == { <<T("ARGS_POST")>>, <<TK("ARGS_GET", s_b)>>, <<OnlyExcl("ARGS_GET", SelKey(s_a))>>, <<OnlyExcl("ARGS_GET", SelKey(s_A))>> }
 DirActionSets == { <<A("deny")>>, <<A("drop")>>, <<A("pass")>>, <<ASetvar(<<Lit(s_n)>>, "add", <<Lit(s_2)>>)>> }
